@@ -141,7 +141,7 @@ func c09EndToEnd(ctx *Ctx) {
 	defer env.Close()
 	seq := 0
 	for _, ver := range []primitive.ProtocolVersion{primitive.ProtocolVersion4, primitive.ProtocolVersion5} {
-		for _, cur := range []string{"", "system", "\"system\"", "SYSTEM", "\"System\"", "myks", "system_auth"} {
+		for curIdx, cur := range []string{"", "system", "\"system\"", "SYSTEM", "\"System\"", "myks", "system_auth"} {
 			cl, err := px.Dial(env.Addr)
 			if err != nil {
 				panic(err)
@@ -176,7 +176,7 @@ func c09EndToEnd(ctx *Ctx) {
 				}
 			}
 			// a USE the backend rejects must leave the keyspace established above in force
-			if len(cur)%2 == 0 {
+			if curIdx%2 == 1 {
 				be.BadKeyspaces["badks"] = &message.Invalid{ErrorMessage: "Keyspace 'badks' does not exist"}
 				_ = cl.Send(ver, 1, &message.Query{Query: "USE badks", Options: &message.QueryOptions{}})
 				if f, _ := cl.Next(5 * time.Second); f == nil || f.Opcode != byte(primitive.OpCodeError) {
